@@ -217,6 +217,7 @@ def bundleLine (bm : List Nat) (toks : List String) : List Nat × String :=
       | .error e => (bm, "err " ++ e.name ++ " " ++ show_ bm)
   -- instruction level (family xbun): `bm = []` stands for a deleted bundle; the pool has price 1.0
   | ["xnew", _ts] => (List.replicate 32 0, "ok " ++ show_ (List.replicate 32 0))
+  | ["xnewm", _ts] => (List.replicate 32 0, "ok " ++ show_ (List.replicate 32 0))   -- …_with_metadata: same bundle
   | ["xopen", i, lo, hi, auth, ts] =>
     match i.toNat?, lo.toInt?, hi.toInt?, auth.toNat?, ts.toNat? with
     | some i, some lo, some hi, some auth, some ts =>
